@@ -30,9 +30,11 @@ type MultiStatus struct {
 
 // ParseStatusLine reads "HTTP/1.1 207 Multi-Status" strictly (RFC 4918 §14.28 / RFC 7230 status-line).
 func ParseStatusLine(s string) (int, error) {
-	s = strings.TrimSpace(s)
+	// status-line = HTTP-version SP status-code SP reason-phrase: the second SP is required even when the
+	// reason phrase is empty, so only line breaks and tabs around the text are layout
+	s = strings.TrimLeft(strings.Trim(s, "\r\n\t"), " ")
 	parts := strings.SplitN(s, " ", 3)
-	if len(parts) < 2 || !strings.HasPrefix(parts[0], "HTTP/") {
+	if len(parts) < 3 || !strings.HasPrefix(parts[0], "HTTP/") {
 		return 0, fmt.Errorf("indep: bad status line %q", s)
 	}
 	if len(parts[1]) != 3 {
